@@ -343,4 +343,133 @@ Section Insert.
       apply (in_child_elements _ rank dflt vs cs i); auto.
   Qed.
 
+  Lemma not_full_lt : forall h (c : node), wfn L I h c -> is_full L I c = false ->
+    n_vals c < max_vals L I c.
+  Proof.
+    intros h c Hw Hf. apply (wfn_iff _ rank dflt L I HI HI3) in Hw. destruct Hw as [_ Hw].
+    unfold is_full in Hf. apply Nat.eqb_neq in Hf. lia.
+  Qed.
+
+  Lemma insert_down_spec : forall f o n e,
+    kids_ok L I f n -> n_vals n < max_vals L I n -> asc (elements n) ->
+    post_ok f e n o (insert_down rank dflt L I f o n e).
+  Proof.
+    induction f as [|f IH]; intros o n e Hk Hnf Ha; [destruct n; destruct Hk|].
+    destruct n as [vs|vs cs]; cbn [insert_down].
+    - (* leaf *)
+      cbn [elements] in Ha.
+      pose proof (find_value_spec _ rank dflt (cmpk rank e) vs (cmpk_mono _ rank dflt e vs Ha)) as Hfv.
+      destruct (find_value dflt (cmpk rank e) vs) as [[i eq] lg] eqn:Efv.
+      destruct Hfv as (Hi & Ht & Hff & Hlg & _).
+      unfold n_vals, max_vals in Hnf. cbn [vals is_leaf] in Hnf.
+      destruct eq.
+      + destruct (Ht eq_refl) as [Hi' Heq].
+        unfold post_ok. split; [|split; [|split; [|split; [|split; [|split]]]]]; auto; try discriminate.
+        * unfold n_vals, max_vals. cbn [vals is_leaf]. lia.
+        * cbn [ins_rel elements]. split; [|reflexivity]. exists (nth i vs dflt). split.
+          -- apply nth_In. assumption.
+          -- apply (cmpk_Eq _ rank dflt). assumption.
+      + destruct (Hff eq_refl) as [Hlt Hgt].
+        unfold post_ok. split; [|split; [|split; [|split; [|split; [|split]]]]]; auto; try discriminate.
+        * unfold n_vals, max_vals. cbn [vals is_leaf]. rewrite length_ainsert by lia. lia.
+        * cbn [ins_rel elements]. split.
+          -- intros x Hx. apply (In_nth _ _ dflt) in Hx as [j [Hj <-]].
+             destruct (Nat.lt_ge_cases j i) as [Hji|Hji].
+             ++ pose proof (proj1 (cmpk_Lt _ rank dflt e _) (Hlt j Hji)). lia.
+             ++ pose proof (proj1 (cmpk_Gt _ rank dflt e _) (Hgt j (conj Hji Hj))). lia.
+          -- transitivity (ins_sorted rank e (firstn i vs ++ [] ++ skipn i vs));
+               [|cbn [app]; rewrite firstn_skipn; reflexivity].
+             rewrite ins_sorted_sandwich; [reflexivity| |].
+             ++ intros x Hx. apply (In_firstn_nth _ _ _ _ dflt) in Hx as [j [Hj [Hj' <-]]].
+                apply (cmpk_Lt _ rank dflt). apply Hlt. assumption.
+             ++ intros x Hx. apply (In_skipn_nth _ _ _ _ dflt) in Hx as [j [Hj <-]].
+                apply (cmpk_Gt _ rank dflt). apply Hgt. assumption.
+    - (* internal page *)
+      pose proof Hk as (Hf0 & Hl & Hfa).
+      unfold n_vals, max_vals in Hnf. cbn [vals is_leaf] in Hnf.
+      assert (Hav : asc vs) by (apply (asc_vals _ rank dflt vs cs); assumption).
+      pose proof (find_value_spec _ rank dflt (cmpk rank e) vs (cmpk_mono _ rank dflt e vs Hav)) as Hfv.
+      destruct (find_value dflt (cmpk rank e) vs) as [[i eq] lg] eqn:Efv.
+      destruct Hfv as (Hi & Ht & Hff & Hlg & _).
+      assert (Hlg' : forall x, In x lg -> In x (elements (Inode vs cs)))
+        by (intros x Hx; apply (in_vals_elements _ rank dflt); auto).
+      destruct eq.
+      + destruct (Ht eq_refl) as [Hi' Heq].
+        unfold post_ok. split; [|split; [|split; [|split; [|split; [|split]]]]]; auto; try discriminate.
+        * unfold n_vals, max_vals. cbn [vals is_leaf]. lia.
+        * cbn [ins_rel]. split; [|reflexivity]. exists (nth i vs dflt). split.
+          -- apply (in_vals_elements _ rank dflt); auto. apply nth_In. assumption.
+          -- apply (cmpk_Eq _ rank dflt). assumption.
+      + destruct (Hff eq_refl) as [Hlt Hgt].
+        pose proof (kids_ok_child _ rank dflt L I HI HI3 f vs cs i Hk Hi) as Hc.
+        destruct (is_full L I (nth i cs dnode)) eqn:Efull.
+        * (* pre-emptive split *)
+          destruct (alloc o) as [ok o1] eqn:Eal. destruct (alloc_spec _ _ _ Eal) as [Ho1 Hok].
+          destruct ok; cbn [negb].
+          2:{ unfold post_ok. split; [|split; [|split; [|split; [|split; [|split]]]]]; auto.
+              - unfold n_vals, max_vals. cbn [vals is_leaf]. lia.
+              - cbn [ins_rel]. reflexivity.
+              - intros Hall. specialize (Hok Hall). discriminate. }
+          assert (Hfull : n_vals (nth i cs dnode) = max_vals L I (nth i cs dnode))
+            by (unfold is_full in Efull; apply Nat.eqb_eq in Efull; exact Efull).
+          destruct (split_node dflt L I (nth i cs dnode)) as [[l m] r] eqn:Esp.
+          pose proof (split_child_spec f vs cs i l m r Hk Hi Hfull Esp) as Hs. cbv zeta in Hs.
+          destruct Hs as (Hsc & Hel & Hk1 & Hni & Hni1 & Hlnf & Hrnf & Hm).
+          rewrite Hsc. unfold child. cbn [vals children set_child].
+          rewrite nth_ainsert_eq by lia.
+          set (vs1 := ainsert vs i m) in *.
+          set (cs1 := firstn i cs ++ l :: r :: skipn (S i) cs) in *.
+          assert (Hlv1 : length vs1 = S (length vs)) by (unfold vs1; apply length_ainsert; lia).
+          assert (Ha1 : asc (elements (Inode vs1 cs1))) by (rewrite Hel; assumption).
+          assert (Htr : forall res, post_ok (S f) e (Inode vs1 cs1) o1 res ->
+                                    post_ok (S f) e (Inode vs cs) o res).
+          { intros res. apply post_ok_transfer; auto. unfold n_vals. cbn [vals]. lia. }
+          assert (Hlgm : forall x, In x (lg ++ [m]) -> In x (elements (Inode vs1 cs1))).
+          { intros x Hx. rewrite Hel. apply in_app_or in Hx as [Hx|[<-|[]]]; auto. }
+          destruct (cmpk rank e m) eqn:Ecm.
+          -- (* the separator is the key *)
+             apply Htr. unfold post_ok.
+             split; [|split; [|split; [|split; [|split; [|split]]]]]; auto; try discriminate.
+             ++ unfold n_vals, max_vals. cbn [vals is_leaf]. lia.
+             ++ cbn [ins_rel]. split; [|reflexivity]. exists m. split.
+                ** rewrite Hel. assumption.
+                ** apply (cmpk_Eq _ rank dflt). assumption.
+          -- (* separator below the key: right half *)
+             assert (Hi1 : i + 1 <= length vs1) by lia.
+             pose proof (kids_ok_child _ rank dflt L I HI HI3 f vs1 cs1 (i + 1) Hk1 Hi1) as Hc1.
+             pose proof (IH o1 (nth (i + 1) cs1 dnode) e
+                            (wfn_kids_ok _ rank dflt L I HI HI3 _ _ Hc1)
+                            ltac:(rewrite Hni1; exact Hrnf)
+                            (asc_child _ rank dflt vs1 cs1 (i + 1) (proj1 (proj2 Hk1)) Hi1 Ha1)) as Hp.
+             destruct (insert_down rank dflt L I f o1 (nth (i + 1) cs1 dnode) e) as [[[st c'] o2] lg2].
+             apply Htr. replace (lg ++ m :: lg2) with ((lg ++ [m]) ++ lg2)
+               by (rewrite <- app_assoc; reflexivity).
+             apply descend; auto; try lia.
+             ++ intros j Hj. destruct (Nat.eq_dec j i) as [->|Hne].
+                ** unfold vs1. rewrite nth_ainsert_eq by lia. assumption.
+                ** unfold vs1. rewrite nth_ainsert_lt by lia. apply Hlt. lia.
+             ++ intros j Hj. unfold vs1. rewrite nth_ainsert_gt by lia. apply Hgt. lia.
+          -- (* separator above the key: left half *)
+             assert (Hi1 : i <= length vs1) by lia.
+             pose proof (kids_ok_child _ rank dflt L I HI HI3 f vs1 cs1 i Hk1 Hi1) as Hc1.
+             pose proof (IH o1 (nth i cs1 dnode) e
+                            (wfn_kids_ok _ rank dflt L I HI HI3 _ _ Hc1)
+                            ltac:(rewrite Hni; exact Hlnf)
+                            (asc_child _ rank dflt vs1 cs1 i (proj1 (proj2 Hk1)) Hi1 Ha1)) as Hp.
+             destruct (insert_down rank dflt L I f o1 (nth i cs1 dnode) e) as [[[st c'] o2] lg2].
+             apply Htr. replace (lg ++ m :: lg2) with ((lg ++ [m]) ++ lg2)
+               by (rewrite <- app_assoc; reflexivity).
+             apply descend; auto; try lia.
+             ++ intros j Hj. unfold vs1. rewrite nth_ainsert_lt by lia. apply Hlt. lia.
+             ++ intros j Hj. destruct (Nat.eq_dec j i) as [->|Hne].
+                ** unfold vs1. rewrite nth_ainsert_eq by lia. assumption.
+                ** unfold vs1. rewrite nth_ainsert_gt by lia. apply Hgt. lia.
+        * (* the child has room *)
+          pose proof (IH o (nth i cs dnode) e (wfn_kids_ok _ rank dflt L I HI HI3 _ _ Hc)
+                         (not_full_lt _ _ Hc Efull)
+                         (asc_child _ rank dflt vs cs i Hl Hi Ha)) as Hp.
+          destruct (insert_down rank dflt L I f o (nth i cs dnode) e) as [[[st c'] o2] lg2].
+          apply descend; auto; lia.
+  Qed.
+
 End Insert.
